@@ -792,3 +792,40 @@ def r14_expand_unrelated(ctx):
 
 
 RULES += [r14_expand_unrelated]
+
+
+def r15_no_float_on_weights(ctx):
+    ctx.rule("C03.r15", "zones / octagons: a weight (bound) is never converted to `float` / `double` on its way into the graph - a float "
+             "has 24 bits of mantissa, so 2*floor((float)w/2) turns 2^26+3 into 2^26 and loses an integer solution", floor=1)
+    n = 0
+    hit = []
+    for f in ("include/crab/domains/split_oct.hpp", "include/crab/domains/split_dbm.hpp", "include/crab/domains/sparse_dbm.hpp"):
+        if not ctx.db.has_file(f):
+            continue
+        seen = set()
+        for fn in ctx.db.fns(f):
+            key = (fn["name"], fn.get("psig"))
+            if key in seen:
+                continue
+            seen.add(key)
+            n += 1
+            for x in walk(fn["body"]):
+                if x.get("k") == "cast" and (x.get("T") or x.get("TC") or "") in ("float", "double", "long double"):
+                    # only conversions of weights: the operand mentions a weight reference / graph lookup result
+                    opnd = x.get("e") or {}
+                    if any(is_call(y, name=("get", "edge_val")) or (y.get("k") == "ref" and "Wt" in (y.get("T") or "")) for y in walk(opnd)):
+                        hit.append((fn, x))
+    if n == 0:
+        ctx.fail("rule C03.r15: graph-domain files not found")
+        return
+    if hit:
+        for fn, x in hit[:3]:
+            ctx.bad("%s::%s converts a weight to %s (`%s`): weights above 2^24 are rounded, e.g. the integer tightening of "
+                    "2x <= 2^26+3 becomes 2x <= 2^26 and excludes x = 2^25+1" % ((fn.get("cpk") or "").split("::")[-1], fn["name"],
+                                                                               x.get("T") or "float", src(x)[:40]), fn, x,
+                    sig="weight-through-float:%s" % fn["name"])
+    else:
+        ctx.ok("no weight is converted to a floating-point type (%d functions)" % n, None, None)
+
+
+RULES += [r15_no_float_on_weights]
